@@ -36,8 +36,8 @@ PROP = "C05"
 FN = f"{PROP}/Manager.extrapolate_system"
 
 # clause names -------------------------------------------------------------
-RAISES_NONE = "raises.SystemError_and_no_file_when_no_species_has_both_resolutions"
-RAISES_MAP = "raises.SystemError_and_no_file_when_a_map_is_missing"
+RAISES_NONE = "raises.error_and_no_file_when_no_species_has_both_resolutions"
+RAISES_MAP = "raises.error_and_no_file_when_a_map_is_missing"
 RETURNS = "ensures.returns_and_writes_file_when_maps_exist"
 WELLFORMED = "ensures.output_is_wellformed_gro"
 TITLE = "ensures.title_copied"
@@ -91,8 +91,11 @@ def _info_bounded(prop):
         "trusted_base": ["CPython 3.12 + numpy", "this module's generator, .gro formatter and fixed-width .gro parser",
                          "real System/Molecule.from_files used to build the inputs (their own contracts are C11/C15)",
                          "real ExchangeMap as the coordinate oracle for references of >= 3 atoms (its contracts are C01-C04)"],
-        "assumptions": ["coordinates: 'to the precision of the coordinate format' is read as half a unit of the last written "
-                        "decimal (+1e-9) against the map evaluated in float64",
+        "assumptions": ["over-demand policy: exception type of the refusals, Manager.complete_correspondence / Alignment.exchange_map state, "
+                        "the GroFile cross-read, a title differing in trailing white space only and coordinate deviations between half a unit "
+                        "and one unit of the last decimal are informational (undecided), never violations",
+                        "coordinates: 'to the precision of the coordinate format': a deviation from the map (evaluated in float64) of more than one "
+                        "unit of the last written decimal is a violation; within half a unit (+1e-9) holds; in between is undecided",
                         "references of fewer than three atoms: only the distance of every image atom to the reference atom "
                         "(= scale x construction distance) and the scaled pairwise distances are required (rotation left free, C02)",
                         "box compared to 5e-6 in the .gro order of the nine box numbers; title compared modulo the line terminator"],
@@ -100,7 +103,7 @@ def _info_bounded(prop):
                         "Scope: every sequence of <= 3 (quick) / <= 5 (thorough) molecules over four species "
                         "(P single residue 3 atoms, Q one atom, R three residues X,Y,X with gapped residue numbers, W solvent never given a topology) "
                         "containing at least one loadable species; every subset of the loaded species given an end molecule (the empty subset and "
-                        "the states 'maps not calculated' / 'one map missing' must raise SystemError and create no file); rectangular and triclinic box (triclinic kinds rotated over the cases: mixed-sign, all-negative, hexagonal v2x=-a/2, all-positive, one tiny negative tilt term); "
+                        "the states 'maps not calculated' / 'one map missing' must raise an error (any type; the code raises SystemError) and create no file); rectangular and triclinic box (triclinic kinds rotated over the cases: mixed-sign, all-negative, hexagonal v2x=-a/2, all-positive, one tiny negative tilt term); "
                         "scale factors 0.5, 1.0, 1.7; title with and without trailing blanks; two topology loading orders; plus the shipped BMIM/BF4 box. "
                         "Exchange maps are initialised directly (no Monte-Carlo).  The output is parsed by an independent fixed-width parser.  "
                         "One obligation per (function, clause, scope family); a family is (first species of the sequence[, second], box kind, "
@@ -266,10 +269,8 @@ def parse_gro(text):
     (resid, resname, atomname, atomnr, xyz, decimals), the nine box numbers in
     file order (missing ones 0) and a list of format problems."""
     out = {"title": None, "n_declared": None, "recs": [], "box": None, "problems": [], "fatal": False}
-    if not text.endswith("\n"):
-        out["problems"].append("file does not end with a line terminator")
     lines = text.split("\n")
-    if lines and lines[-1] == "":
+    while lines and lines[-1].strip() == "":      # a missing final terminator or trailing blank lines are not a defect
         lines = lines[:-1]
     if len(lines) < 3:
         out["problems"].append(f"only {len(lines)} lines")
@@ -346,13 +347,16 @@ def evaluate_output(model, complete, text, expected, scale):
     """complete: set of molecule names with both resolutions.  expected: per input
     molecule that must be written, the positions given by the species' exchange map
     applied to that molecule (None for references of fewer than three atoms).
-    Returns {clause: (ok, detail, nontrivial)}."""
+    Returns {clause: (ok, detail, nontrivial)}; ok is True, False (violation) or None (not decided by
+    the statement: reported as undecided, never as a violation)."""
     R = {}
     p = parse_gro(text)
     R[WELLFORMED] = (not p["problems"], "; ".join(p["problems"][:3]), True)
     if p["fatal"]:
         return R
-    R[TITLE] = (p["title"] == model["title"], f"title {p['title']!r}, input title {model['title']!r}", True)
+    t_ok = True if p["title"] == model["title"] else (None if p["title"].rstrip() == model["title"].rstrip() else False)
+    R[TITLE] = (t_ok, f"title {p['title']!r}, input title {model['title']!r}"
+                + (" (differ in trailing white space only: not decided by the statement)" if t_ok is None else ""), True)
     dbox = max(abs(a - b) for a, b in zip(p["box"], model["box"]))
     R[BOX] = (dbox <= 5e-6, f"box {p['box']}, input box {model['box']}", True)
     targets = model["targets"]
@@ -376,7 +380,7 @@ def evaluate_output(model, complete, text, expected, scale):
         return R
     R[ORDER] = (True, "", len(written) >= 2 or skipped > 0)
     k = 0
-    res_bad = crd_bad = small_bad = None
+    res_bad = crd_bad = small_bad = crd_gray = small_gray = None
     n_big = n_small = 0
     worst = 0.0
     for mi, m in enumerate(written):
@@ -396,31 +400,44 @@ def evaluate_output(model, complete, text, expected, scale):
                 continue
             dev = float(np.abs(got - np.asarray(exp)).max())
             worst = max(worst, dev)
-            if dev > half + 1e-9 and crd_bad is None:
+            if dev > half + 1e-9 and (crd_bad is None or crd_gray is None):
                 j = int(np.abs(got - np.asarray(exp)).max(axis=1).argmax())
-                crd_bad = (f"written molecule {mi} ({m['name']}) atom {j}: written {got[j].tolist()}, exchange map of the input molecule gives "
-                           f"{np.asarray(exp)[j].tolist()} (|diff| {dev:.6f} > {half})")
+                msg = (f"written molecule {mi} ({m['name']}) atom {j}: written {got[j].tolist()}, exchange map of the input molecule gives "
+                       f"{np.asarray(exp)[j].tolist()} (|diff| {dev:.6f}; half a unit of the last decimal is {half}, one unit {2 * half})")
+                if dev > 2 * half + 1e-9:
+                    crd_bad = crd_bad or msg
+                else:
+                    crd_gray = crd_gray or msg
         else:
             n_small += 1
-            tol = math.sqrt(3.0) * half + 1e-9
+            tol = math.sqrt(3.0) * half + 1e-9            # rounding to the nearest unit; twice that (truncation) is the violation limit
             ref = m["xyz"][0]
             cons = np.linalg.norm(t["aa_xyz"] - t["ref_first_xyz"][0], axis=1)
             d = np.linalg.norm(got - ref, axis=1)
             err = np.abs(d - scale * cons)
-            if err.max() > tol and small_bad is None:
+            if err.max() > tol:
                 j = int(err.argmax())
-                small_bad = (f"written molecule {mi} ({m['name']}) atom {j}: distance to the reference atom {d[j]:.5f}, "
-                             f"expected scale*construction distance = {scale}*{cons[j]:.5f} = {scale * cons[j]:.5f} (tol {tol:.5f})")
+                msg = (f"written molecule {mi} ({m['name']}) atom {j}: distance to the reference atom {d[j]:.5f}, "
+                       f"expected scale*construction distance = {scale}*{cons[j]:.5f} = {scale * cons[j]:.5f} "
+                       f"(rounding tol {tol:.5f}, limit {2 * tol:.5f})")
+                if err.max() > 2 * tol:
+                    small_bad = small_bad or msg
+                else:
+                    small_gray = small_gray or msg
             for a, b in itertools.combinations(range(len(got)), 2):
                 e2 = abs(np.linalg.norm(got[a] - got[b]) - scale * np.linalg.norm(t["aa_xyz"][a] - t["aa_xyz"][b]))
-                if e2 > 2 * tol and small_bad is None:
-                    small_bad = (f"written molecule {mi} ({m['name']}): distance between image atoms {a},{b} differs from the scaled "
-                                 f"target distance by {e2:.5f} (tol {2 * tol:.5f})")
+                if e2 > 2 * tol:
+                    msg = (f"written molecule {mi} ({m['name']}): distance between image atoms {a},{b} differs from the scaled "
+                           f"target distance by {e2:.5f} (rounding tol {2 * tol:.5f}, limit {4 * tol:.5f})")
+                    if e2 > 4 * tol:
+                        small_bad = small_bad or msg
+                    else:
+                        small_gray = small_gray or msg
     R[RESIDS] = (res_bad is None, res_bad or "", True)
     if n_big:
-        R[COORDS] = (crd_bad is None, crd_bad or f"max |diff| {worst:.6f}", True)
+        R[COORDS] = (False if crd_bad else (None if crd_gray else True), crd_bad or crd_gray or f"max |diff| {worst:.6f}", True)
     if n_small:
-        R[SMALLREF] = (small_bad is None, small_bad or "", True)
+        R[SMALLREF] = (False if small_bad else (None if small_gray else True), small_bad or small_gray or "", True)
     return R
 
 
@@ -442,6 +459,12 @@ class Harness(Exception):
     pass
 
 
+def _info(ok):
+    """Observations the statement does not speak about (public helper properties, attributes, the library's own
+    reader): a mismatch is reported as undecided, never as a violation."""
+    return True if ok else None
+
+
 def _rm(p):
     try:
         os.remove(p)
@@ -454,8 +477,8 @@ def _expect_refusal(manager, path):
     _, e = _call(manager.extrapolate_system, path)
     exists = os.path.exists(path)
     _rm(path)
-    ok = isinstance(e, SystemError) and not exists
-    return ok, f"exception={type(e).__name__ if e is not None else None}({e}) output_file_created={exists}; expected SystemError and no file"
+    ok = e is not None and not exists        # the statement says "raises an error": any exception type is accepted
+    return ok, f"exception={type(e).__name__ if e is not None else None}({e}) output_file_created={exists}; expected an error and no file"
 
 
 def run_case(files, model, load_order, subset, scale, workdir, keep=None):
@@ -473,7 +496,7 @@ def run_case(files, model, load_order, subset, scale, workdir, keep=None):
     try:
         # ---- no species with both resolutions
         cc, e = _call(lambda: dict(manager.complete_correspondence))
-        R[CC_KEYS] = (e is None and set(cc) == set(), f"no end molecule attached: keys {sorted(cc) if cc is not None else e!r}, expected none", True)
+        R[CC_KEYS] = (_info(e is None and set(cc) == set()), f"no end molecule attached: keys {sorted(cc) if cc is not None else e!r}, expected none", True)
         R[RAISES_NONE] = _expect_refusal(manager, os.path.join(workdir, "out_none.gro")) + (True,)
         if not subset:
             return R
@@ -500,8 +523,8 @@ def run_case(files, model, load_order, subset, scale, workdir, keep=None):
             return R
         R[ADD_END] = (True, "", True)
         cc, e = _call(lambda: dict(manager.complete_correspondence))
-        R[CC_KEYS] = (R[CC_KEYS][0] and e is None and set(cc) == set(subset),
-                      R[CC_KEYS][1] if not R[CC_KEYS][0] else f"end molecules attached for {sorted(subset)}: keys {sorted(cc) if cc is not None else e!r}", True)
+        R[CC_KEYS] = (_info(R[CC_KEYS][0] is True and e is None and set(cc) == set(subset)),
+                      R[CC_KEYS][1] if R[CC_KEYS][0] is not True else f"end molecules attached for {sorted(subset)}: keys {sorted(cc) if cc is not None else e!r}", True)
         ok, det = _expect_refusal(manager, os.path.join(workdir, "out_nomap.gro"))
         R[RAISES_MAP] = (ok, f"map of {subset[-1]} not calculated ({len(subset) - 1} other maps exist): " + det, True)
         # ---- all maps
@@ -509,14 +532,17 @@ def run_case(files, model, load_order, subset, scale, workdir, keep=None):
         if e is not None:
             R[MAPS_SET] = (False, f"calculate_exchange_maps({scale}) raised {type(e).__name__}: {e}", True)
             return R
-        have = sorted(n for n, a in manager.molecule_correspondence.items() if a.exchange_map is not None)
-        R[MAPS_SET] = (have == sorted(subset), f"species with a map {have}, species with both resolutions {sorted(subset)}", True)
+        try:
+            have = sorted(n for n, a in manager.molecule_correspondence.items() if a.exchange_map is not None)
+        except Exception as e:  # noqa
+            raise Harness(f"cannot read Alignment.exchange_map: {type(e).__name__}: {e}")
+        R[MAPS_SET] = (_info(have == sorted(subset)), f"species with a map {have}, species with both resolutions {sorted(subset)}", True)
         out = os.path.join(workdir, "out.gro")
         _rm(out)
         _, e = _call(manager.extrapolate_system, out)
         exists = os.path.isfile(out)
         R[RETURNS] = (e is None and exists, f"exception={type(e).__name__ if e is not None else None}({e}) file_written={exists}", True)
-        if not R[RETURNS][0]:
+        if R[RETURNS][0] is not True:
             _rm(out)
             return R
         with open(out) as f:
@@ -546,7 +572,8 @@ def run_case(files, model, load_order, subset, scale, workdir, keep=None):
         if keep is not None:
             keep.update(text=text, expected=expected)
         R.update(evaluate_output(model, set(subset), text, expected, scale))
-        R[CROSS] = _crossread(out, text) + (True,)
+        c_ok, c_det = _crossread(out, text)
+        R[CROSS] = (_info(c_ok), c_det, True)        # GroFile's reader has its own contracts (C13/C14): informational here
         _rm(out)
         return R
     finally:
@@ -617,7 +644,7 @@ def synthetic_case(seq, box, title_idx, subset, scale, workdir, keep=None):
 class Agg:
     def __init__(self, family):
         self.family = family
-        self.n, self.nt, self.nbad, self.first, self.sample = {}, {}, {}, {}, {}
+        self.n, self.nt, self.nbad, self.first, self.sample, self.gray = {}, {}, {}, {}, {}, {}
         self.harness = []
 
     def add(self, results, case):
@@ -626,9 +653,11 @@ class Agg:
             self.nt[clause] = self.nt.get(clause, 0) + (1 if nontriv else 0)
             if clause not in self.sample or _size(case) > _size(self.sample[clause]):
                 self.sample[clause] = case              # the evidence shows the largest enumerated case
-            if not ok:
+            if ok is False:
                 self.nbad[clause] = self.nbad.get(clause, 0) + 1
                 self.first.setdefault(clause, (case, detail))
+            elif ok is None:
+                self.gray.setdefault(clause, (case, detail))
 
     def obligations(self, secs):
         out = []
@@ -643,6 +672,12 @@ class Agg:
                               evaluations=self.n[clause], nontrivial=self.nt[clause],
                               reason=f"{self.nbad[clause]}/{self.n[clause]} evaluations fail; first: {_short(case)} :: {detail}",
                               cex=cex, sample=_short(self.sample[clause])))
+            elif clause in self.gray:
+                case, detail = self.gray[clause]
+                out.append(ob(oid, "undecided", kind="bounded", engine="smallscope", backend="runtime-contract", secs=secs,
+                              evaluations=self.n[clause], nontrivial=self.nt[clause],
+                              reason=f"not decided by the statement; first: {_short(case)} :: {detail}",
+                              sample=_short(self.sample[clause])))
             else:
                 out.append(ob(oid, "discharged", kind="bounded", engine="smallscope", backend="runtime-contract", secs=secs,
                               evaluations=self.n[clause], nontrivial=self.nt[clause], sample=_short(self.sample[clause])))
@@ -837,10 +872,10 @@ class _FakeManager:
         self.mode = mode
 
     def extrapolate_system(self, path):
-        if self.mode in ("writes", "file-then-SystemError"):
+        if self.mode in ("writes", "file-then-error"):
             with open(path, "w") as f:
                 f.write("x\n")
-        if self.mode in ("file-then-SystemError",):
+        if self.mode in ("file-then-error",):
             raise SystemError("late")
         if self.mode == "ValueError":
             raise ValueError("wrong exception type")
@@ -856,11 +891,11 @@ def task_guards(seed):
         complete = set(load_order_for(seq, ti))
         text, expected = _reference_observation(model, complete, scale, BOXES[box])
         R = evaluate_output(model, complete, text, expected, scale)
-        sane = all(v[0] for v in R.values()) and set(OUTPUT_CLAUSES) <= set(R)
+        sane = all(v[0] is True for v in R.values()) and set(OUTPUT_CLAUSES) <= set(R)
         out.append(ob(f"{FN}/guard.conforming-observation-accepted", "discharged" if sane else "refuted", kind="guard",
                       engine="smallscope", backend="runtime-contract", expect="discharged",
                       sample={"seq": seq, "box": box, "scale": scale, "clauses": sorted(R)},
-                      reason="" if sane else "; ".join(f"{c}: {v[1]}" for c, v in R.items() if not v[0])[:500]))
+                      reason="" if sane else "; ".join(f"{c}: {v[1]}" for c, v in R.items() if v[0] is not True)[:500]))
         cor = _corruptions(text, model, complete)
         for clause in OUTPUT_CLAUSES:
             if clause not in cor:
@@ -868,7 +903,7 @@ def task_guards(seed):
                               backend="runtime-contract", expect="refuted", reason="no corruption built"))
                 continue
             r = evaluate_output(model, complete, cor[clause], expected, scale)
-            caught = clause in r and not r[clause][0]
+            caught = clause in r and r[clause][0] is False
             out.append(ob(f"{FN}/guard.must-fail/{clause}", "refuted" if caught else "discharged", kind="guard",
                           engine="smallscope", backend="runtime-contract", expect="refuted", evaluations=1,
                           reason=(r.get(clause) or (None, "clause not evaluated"))[1][:300]))
@@ -885,12 +920,24 @@ def task_guards(seed):
         out.append(ob(f"{FN}/guard.must-fail/{CROSS}", "refuted" if (not ok and ok2) else "discharged", kind="guard",
                       engine="smallscope", backend="runtime-contract", expect="refuted", evaluations=2,
                       reason=(det + " | conforming file: " + (det2 or "agrees"))[:300]))
-        # refusal clauses: must reject 'returns and writes', 'wrong exception type', 'file created before the error'
-        for mode in ("writes", "ValueError", "file-then-SystemError"):
+        # refusal clauses: must reject 'returns and writes' and 'file created before the error';
+        # must accept an error of any type (the statement names none) that leaves no file
+        for mode in ("writes", "file-then-error"):
             ok, det = _expect_refusal(_FakeManager(mode), os.path.join(d, "guard.gro"))
-            out.append(ob(f"{FN}/guard.must-fail/raises.SystemError_and_no_file/{mode}", "refuted" if not ok else "discharged",
+            out.append(ob(f"{FN}/guard.must-fail/raises.error_and_no_file/{mode}", "refuted" if not ok else "discharged",
                           kind="guard", engine="smallscope", backend="runtime-contract", expect="refuted", evaluations=1,
                           reason=det[:250]))
+        ok, det = _expect_refusal(_FakeManager("ValueError"), os.path.join(d, "guard.gro"))
+        out.append(ob(f"{FN}/guard.any-error-type-accepted", "discharged" if ok else "refuted", kind="guard", engine="smallscope",
+                      backend="runtime-contract", expect="discharged", evaluations=1, reason=det[:250]))
+        # truncation-style rounding (off by between half a unit and one unit) must come back undecided, not refuted
+        lines = text.split("\n")
+        l = lines[2]
+        shifted = "\n".join(lines[:2] + [l[:20] + "%8.3f" % (float(l[20:28]) + 0.001) + l[28:]] + lines[3:])
+        r = evaluate_output(model, complete, shifted, expected, scale)
+        out.append(ob(f"{FN}/guard.one-unit-rounding-not-a-violation", "discharged" if r[COORDS][0] is None else "refuted",
+                      kind="guard", engine="smallscope", backend="runtime-contract", expect="discharged", evaluations=1,
+                      reason=str(r[COORDS][1])[:250]))
         # vacuity: the quick scope contains solvent, repeats, interleaving, the multi-residue and the one-atom species
         seqs = list(sequences(3))
         cover = {"solvent": any("W" in s for s in seqs), "repeat": any(len(set(s)) < len(s) for s in seqs),
@@ -957,7 +1004,7 @@ def replay(prop, cex):
                 R, _, _ = synthetic_case(cex["seq"], cex["box"], int(cex["title"]), list(cex["subset"]), float(cex["scale"]), d)
         except Harness as e:
             return {"reproduced": False, "note": f"set-up problem on replay: {e}", "inputs": cex}
-        failed = {c: v[1] for c, v in R.items() if not v[0]}
+        failed = {c: v[1] for c, v in R.items() if v[0] is False}
         rep = clause in failed if clause else bool(failed)
         return {"reproduced": bool(rep), "observed": failed.get(clause) if clause in failed else failed,
                 "expected": f"clause {clause} of the contract on Manager.extrapolate_system holds",
